@@ -9,8 +9,8 @@ from .costream import cfield, cupvar
 
 PROPERTY = "C15"
 LEVEL = "other"
-CONFIGS_QUICK = ["std"]
-CONFIGS_THOROUGH = ["std", "alloc"]
+CONFIGS_QUICK = ["std", "std-rel"]
+CONFIGS_THOROUGH = ["std", "alloc", "std-rel", "alloc-rel"]
 EXPLANATION = (
     "Structural causes of the value-level statement, on the MIR of the adapter consumers, futures and drive bodies: (ENUM) "
     "EnumerateConsumer::send reads `count` before its single `count + 1` write and hands that earlier value to EnumerateFuture::new "
